@@ -369,6 +369,29 @@ def run(ctx):
                               "converts some cell texts to missing values" if not verbatim else "does not force text cells"),
                           desc="TSV read takes cells verbatim (dtype=str, no NA conversion)")
     ctx.floor("R5.7", "TSV reads in the schema loaders", n_reads, 2)
+    # ... and with the writer's dialect: separator and quoting of every read equal those of the to_csv that wrote the file
+    writes = [(f, c) for f in prog.functions.values() if f.module.name.startswith("hed.schema.schema_io")
+              for c in ast.walk(f.node) if isinstance(c, ast.Call) and call_name(c) == "to_csv"]
+    ctx.floor("R5.7", "TSV writes in the schema writers", len(writes), 1)
+    dialect = {}
+    for f, c in writes:
+        for k in c.keywords:
+            if k.arg in ("sep", "quoting", "quotechar", "escapechar", "doublequote"):
+                dialect.setdefault(k.arg, set()).add(norm(k.value))
+    for f in prog.functions.values():
+        if not f.module.name.startswith("hed.schema.schema_io"):
+            continue
+        for c in ast.walk(f.node):
+            if isinstance(c, ast.Call) and call_name(c) in ("read_csv", "read_table"):
+                kw = {k.arg: norm(k.value) for k in c.keywords if k.arg}
+                if "delimiter" in kw and "sep" not in kw:
+                    kw["sep"] = kw["delimiter"]
+                for key, vals in sorted(dialect.items()):
+                    ctx.check(kw.get(key) in vals, "R5.7", f.qualname, c, loc(f, c),
+                              "the TSV writer uses %s=%s but this read uses %s=%s: text that the writer emits verbatim (a description "
+                              "starting with a double quote, a unit named `\"`) is re-interpreted by the reader's dialect — the quote "
+                              "is removed or swallows the following rows" % (key, "/".join(sorted(vals)), key, kw.get(key, "<default>")),
+                              desc="%s: read dialect %s=%s as written" % (f.short, key, "/".join(sorted(vals))))
 
     # ---------------- R5.5
     n_loops = 0
